@@ -433,6 +433,7 @@ def get_model_parser(top_rule, comments_model, **kwargs):
 
                 # Used to keep track of user class instances
                 self._user_class_inst = []
+                self._user_obj_ids = []
 
                 self._replace_user_attr_methods()
 
@@ -450,6 +451,7 @@ def get_model_parser(top_rule, comments_model, **kwargs):
             except:  # noqa
                 # Restore of user classes replaced attr methods
                 self._restore_user_attr_methods()
+                self._release_user_obj_attrs()
                 raise
 
             finally:
@@ -511,12 +513,27 @@ def get_model_parser(top_rule, comments_model, **kwargs):
                     self._replace_user_attr_methods_for_class(user_class)
                 else:
                     user_class._tx_instrumented += 1
+            self._user_attr_methods_replaced = True
+
+        def _release_user_obj_attrs(self):
+            """
+            Drop attributes collected for user class objects which will
+            never be initialized (model loading failed).
+            """
+            for user_class in self.metamodel.user_classes.values():
+                for obj_id in getattr(self, "_user_obj_ids", []):
+                    user_class._tx_obj_attrs.pop(obj_id, None)
+            self._user_obj_ids = []
 
         def _restore_user_attr_methods(self):
             """
             Restore original get/set/del(attr) methods on user
             classes.
             """
+            if not getattr(self, "_user_attr_methods_replaced", False):
+                # Nothing to restore for this parser.
+                return
+            self._user_attr_methods_replaced = False
             for user_class in self.metamodel.user_classes.values():
                 if hasattr(user_class, "_tx_instrumented"):
                     user_class._tx_instrumented -= 1
@@ -656,6 +673,7 @@ def parse_tree_to_objgraph(
                 # So that nested object get correct reference
                 inst = user_class.__new__(user_class)
                 user_class._tx_obj_attrs[id(inst)] = {}
+                parser._user_obj_ids.append(id(inst))
                 is_user = True
 
             else:
@@ -1009,6 +1027,7 @@ def parse_tree_to_objgraph(
                 # (remove all of them, not only the model with errors,
                 # since, models with errors may be included in other models)
                 remove_models_from_repositories(models, models)
+                _abandon_user_objects(models)
                 raise
 
         if metamodel.textx_tools_support and type(model) not in PRIMITIVE_PYTHON_TYPES:
@@ -1103,6 +1122,19 @@ def _remove_all_affected_models_in_construction(model):
         filter(lambda x: hasattr(x, "_tx_reference_resolver"), all_affected_models)
     )
     remove_models_from_repositories(all_affected_models, models_to_be_removed)
+    _abandon_user_objects(models_to_be_removed)
+
+
+def _abandon_user_objects(models):
+    """
+    Restore user classes and drop collected attributes for all given models
+    whose construction is abandoned.
+    """
+    for m in models:
+        if hasattr(m, "_tx_parser"):  # not for, e.g., str
+            the_parser = m._tx_parser
+            the_parser._restore_user_attr_methods()
+            the_parser._release_user_obj_attrs()
 
 
 class ReferenceResolver:
